@@ -283,27 +283,34 @@ def space_of(e, fn, spec, env, loop_binds, depth=0):
     return None
 
 
+def arm_matches(arm, v):
+    p = arm['pat']
+    if p.get('k') in ('Wild', 'Bind'):
+        return True
+    alts = p['p'] if p.get('k') == 'POr' else [p]
+    for a in alts:
+        if a.get('k') in ('PTupleStruct', 'PStruct') and a['d'].endswith('::Some'):
+            inner = (a.get('p') or [f_['p'] for f_ in a.get('f', [])])[0]
+            for q in (inner['p'] if inner.get('k') == 'POr' else [inner]):
+                if q.get('k') == 'PLit' and (q.get('v') or {}).get('int') == v:
+                    return True
+                if q.get('k') == 'PRange':
+                    def _b(x):
+                        x = x or {}
+                        return x.get('int') if 'int' in x else (x.get('v') or {}).get('int')
+                    lo, hi = _b(q.get('lo')), _b(q.get('hi'))
+                    if lo is None and hi is not None and v <= hi:
+                        return True
+                    if lo is not None and (hi is None or lo <= v <= hi) and lo <= v:
+                        return True
+    return False
+
+
+
 def jump_parity_rule(chk, by_norm):
     chk.rule('C14-R11', 'for the targets with byte-addressed jumps (3.7, 3.8, 3.9) every value handed to fill_jump / calc_edit_jump — an absolute offset or a distance between '
                         'instruction boundaries — is even: lasti() is even at every recording point (C14-R1), so the parity of `idx_a - idx_b - c` is the parity of `c`; an odd '
                         'operand puts the target between two instructions')
-
-    def arm_matches(arm, v):
-        p = arm['pat']
-        if p.get('k') in ('Wild', 'Bind'):
-            return True
-        alts = p['p'] if p.get('k') == 'POr' else [p]
-        for a in alts:
-            if a.get('k') in ('PTupleStruct', 'PStruct') and a['d'].endswith('::Some'):
-                inner = (a.get('p') or [f_['p'] for f_ in a.get('f', [])])[0]
-                for q in (inner['p'] if inner.get('k') == 'POr' else [inner]):
-                    if q.get('k') == 'PLit' and (q.get('v') or {}).get('int') == v:
-                        return True
-                    if q.get('k') == 'PRange':
-                        lo, hi = (q.get('lo') or {}).get('int'), (q.get('hi') or {}).get('int')
-                        if lo is not None and hi is not None and lo <= v <= hi:
-                            return True
-        return False
 
     def parity(e, env, spec, depth=0):
         if depth > 10:
@@ -528,18 +535,69 @@ def line_table_rules(chk, by_norm):
                     ntot += 1
                     chk.ok('C14-R6', (nm, 'total', n['l']))
     chk.floor('updates of the running line', ntot, 5)
-    # format per version: a writer (or its only callers) must distinguish the table formats
+    # format per version: decided where the table is written into the file (CodeObj::into_bytes) or in the generator's writers
+    line_table_format(chk, by_norm, writers)
+
+
+def line_table_format(chk, by_norm, writers):
+    from sa import facts as F_
+    fx = F_.Facts()
+    CO = 'crates/erg_compiler/ty/codeobj.rs'
     fmt_aware = False
     for nm in writers:
         s_ = ' '.join(T.show(n['c']) for n in T.walk(by_norm[nm]['body']) if n.get('k') == 'If')
         if 'py_version' in s_ and ('Some(10)' in s_ or 'Some(11)' in s_):
             fmt_aware = True
-    for ver, what in (('3.10', 'co_linetable (PEP 626)'), ('3.11', 'the location table (PEP 657)')):
+    ib = fx.fn(CO, 'CodeObj::into_bytes')
+    # the match on the minor version whose value is handed to raw_string_into_bytes
+    table = {}
+    for m in T.walk(ib['body']):
+        if m.get('k') == 'Match' and m.get('src') == 'Normal' and 'minor' in T.show(m['x']) and any('lnotab' in T.show(a['b']) for a in m['arms']):
+            for v in (7, 8, 9, 10, 11):
+                for arm in m['arms']:
+                    if arm_matches(arm, v):
+                        b = T.peel(arm['b'])
+                        callee = T.last_seg(T.callee(b) or '') if b.get('k') in ('Call', 'MCall') else ('raw' if 'lnotab' in T.show(b) and b.get('k') != 'Call' else T.show(b)[:30])
+                        table[v] = (callee, b)
+                        break
+    want = {'3.10': ('co_linetable (PEP 626)', 10, {254, 127}, {255}), '3.11': ('the location table (PEP 657)', 11, {128, 13, 8, 64, 63, 6}, set())}
+    for ver, (what, v, need_consts, forbid) in want.items():
         if fmt_aware:
             chk.ok('C14-R7', ver)
-        else:
+            continue
+        ent = table.get(v)
+        if ent is None or ent[0] == 'raw':
             chk.bad('C14-R7', 'PyCodeGenerator::push_lnotab', 'format@' + ver, 'the line table is written as co_lnotab pairs whatever the target: Python %s expects %s, so every '
                     'instruction of every code object maps to line -1 there' % (ver, what), CODEGEN, by_norm[writers[0]]['line'] if writers else None)
+            continue
+        enc = [f for f in fx.file(CO)['fns'] if T.last_seg(T.norm(f['path'])) == ent[0]]
+        if not chk.need(len(enc) == 1, 'CodeObj::into_bytes: the %s encoder `%s` was not found' % (ver, ent[0])):
+            continue
+        bodies = [enc[0]['body']] + [f['body'] for f in fx.file(CO)['fns'] if f['path'].startswith(enc[0]['path'] + '::')]      # nested helper fns
+        lits = {T.lit_int(n) for b_ in bodies for n in T.walk(b_) if n.get('k') == 'Lit' and T.lit_int(n) is not None}
+        # literals written in hex / negative forms are covered by lit_int; -127 appears as a negated 127
+        missing = sorted(need_consts - lits)
+        present_forbidden = sorted(forbid & lits)
+        others = {vv: table[vv][0] for vv in (7, 8, 9, 10, 11) if vv in table}
+        if missing or present_forbidden:
+            chk.bad('C14-R7', 'CodeObj::' + ent[0], 'constants@' + ver, 'the %s encoder %s lacks the constants of the format (%s: missing %s%s): chunk limits / entry code / varint radix decide how '
+                    'CPython splits the table' % (ver, ent[0], what, missing, ', unexpected %s' % present_forbidden if present_forbidden else ''), CO, enc[0].get('line'))
+        elif any(others.get(vv) != 'raw' for vv in (7, 8, 9)) or others.get(10) == others.get(11):
+            chk.bad('C14-R7', 'CodeObj::into_bytes', 'dispatch@' + ver, 'the line-table format is chosen as %s: 3.7-3.9 need the raw co_lnotab pairs and 3.10 / 3.11 two different encoders' % others,
+                    CO, ib.get('line'))
+        else:
+            chk.ok('C14-R7', ver, sample='%s -> %s (constants %s)' % (ver, ent[0], sorted(need_consts)))
+    # the conversion reads co_lnotab as (unsigned address increment, signed line increment) pairs
+    lr = [f for f in fx.file(CO)['fns'] if T.last_seg(T.norm(f['path'])) == 'line_ranges']
+    if lr:
+        types = fx.file(CO)['types']
+        signed = any(n.get('k') == 'Cast' and types[n['ty']] == 'i8' for n in T.walk(lr[0]['body']))
+        pairs = any(c.get('k') == 'MCall' and c['n'] in ('chunks_exact', 'chunks') and T.lit_int(T.peel(c['a'][0])) == 2 for c in T.calls(lr[0]['body']))
+        if signed and pairs:
+            chk.ok('C14-R7', 'line_ranges', sample='co_lnotab read as pairs with a signed line increment')
+        else:
+            chk.bad('C14-R7', 'CodeObj::line_ranges', 'pairs', 'line_ranges does not read co_lnotab as pairs of (address increment, *signed* line increment): a negative line step (a loop '
+                    'jumping back) becomes a jump of +200 lines on 3.10 / 3.11', CO, lr[0].get('line'))
 
 
 def call_pairing_rule(chk, by_norm, rid='C14-R5', diverging_only=False):
